@@ -63,6 +63,15 @@ var scenarios = []struct {
 		{K: "create", A: 0, B: 1}, {K: "ldelete", A: 0}, {K: "worker", B: 1, C: 8}, {K: "ldelete", A: 2}, {K: "worker", B: 2, C: 8},
 		{K: "rdelete", A: 1, B: 1}, {K: "deliver", A: 1}, {K: "worker", B: 4, C: 8},
 	}}},
+	// minimal input of the defect sigBoundChildWindow: a child its parent's deletion record does not
+	// list, and a head update / put / fetch for it right after the worker's DeleteTree(child) returned
+	{"bound-child-window-head-update", Case{Seed: 201, Ops: []Op{
+		{K: "child", A: 0}, {K: "rdelete", A: 2, B: 0}, {K: "deliver", A: 1}, {K: "worker", B: 1, C: 9},
+	}}},
+	{"bound-child-window-put-and-fetch", Case{Seed: 202, Ops: []Op{
+		{K: "child", A: 0}, {K: "child", A: 0, C: 1}, {K: "rdelete", A: 2, B: 0}, {K: "deliver", A: 2}, {K: "worker", B: 3, C: 9},
+		{K: "create", A: 0, B: 1}, {K: "child", A: 2}, {K: "rdelete", A: 1, B: 4}, {K: "deliver", A: 2}, {K: "worker", B: 4, C: 9},
+	}}},
 	{"index-update-queued-before-the-deletion", Case{Seed: 110, Async: true, Ops: []Op{
 		{K: "create", A: 0}, {K: "edit", A: 2}, {K: "ldelete", A: 2}, {K: "pump", A: 1}, {K: "pump", A: 1}, {K: "pump", A: 1},
 		{K: "pump", A: 1}, {K: "edit", A: 0}, {K: "rdelete", A: 1, B: 0}, {K: "deliver", A: 1}, {K: "pump", A: 1}, {K: "pump", A: 3},
